@@ -479,7 +479,7 @@ spec fn same_record(a: Record, b: Record) -> bool { a.typ == b.typ && (a.cont is
                 assert(s@ + Seq::<char>::empty() =~= s@);
             }
         }
-//@@ before /high_byte = r\.data\[0\]/
+//@@ before /high_byte [^;=]{0,2}= /
                 proof { assert(r.data@ == f1[1]); }
 //@@ before /\} else \{/
                 proof {
@@ -763,6 +763,8 @@ use super::super::*;
         // the strings start right after cstTotal and cstUnique
         assert(r.data@ =~= r0.data@.subrange(8, r0.data@.len() as int));
         lemma_frags_adv(r0, *r, 8);
+        //# C12.sst_count_field
+        // the number of strings is cstUnique (bytes 4..8), not cstTotal
         assert(cnt >= 0 ==> len == cnt);
         lemma_total_unfold(f0); lemma_total_unfold(f8);
         assert(f8.drop_first() =~= f0.drop_first());
@@ -981,6 +983,8 @@ pub uninterp spec fn fmt_of(s: Seq<char>) -> CellFormat;
     proof {
         let d = old(r).data@;
         if d.len() >= 5 {
+            //# C19.format_string_offset
+            // stFormat's characters start after ifmt (2), cch (2) and the flag byte (1)
             assert(r.data@ =~= d.skip(5));
             if str_fits(Some(high_byte), r.data@, cch as int) { lemma_dt_full(*encoding, Some(high_byte), r.data@, cch as int); }
         }
